@@ -70,6 +70,10 @@ CHECKS = {
   technique='property-based testing (Hypothesis): generated posterior sample sets are injected through sampler doubles (a real nestle.Result; pymultinest files + Analyzer statistics), Optimizer.fit() runs end to end and the returned solution is compared with reference weighted quantiles/means, the delivered arrays (bit-equality), an independent model at MAP/median with reference binning, and derived values recomputed sample by sample',
   text='Generated sample sets (1-80 points, uniform/Dirichlet/geometric/tied/zero weights), fitted and derived parameter selections, nestle and MultiNest (single and multi-mode) delivery; exploration level.',
   note='PolyChord post-processing not claimed; quantile intervals widen only where ties or zero weights make the order among equal points arbitrary; modes always carry posterior mass.'),
+ 'C14': dict(
+  technique='property-based testing (Hypothesis): differential between file formats of one generated table (pickle / HDF5 with declared unit / Exo-Transmit; k-table pickle / HDF5; CIA pickle / HITRAN text) anchored to a reference interpolation of the generated table in SI, name-sanitising reference, and generated histories of cache operations with invariants (same object until cleared, loaded from the configured path, interpolation mode in force)',
+  text='Generated tables, pressure units, file names (plain and isotopologue), HITRAN files with per-range temperature subsets and negative entries, and cache operation sequences; exploration level.',
+  note='Real line-list files are absent: files are written by the harness in each reader\'s documented layout; HDF5 molecule names are generated already sanitised; units limited to those astropy parses.'),
 }
 
 NOT_APPLICABLE = {}
